@@ -3,6 +3,9 @@
 package proto
 
 import (
+	"errors"
+	"io"
+
 	"github.com/gotd/td/bin"
 	"github.com/gotd/td/internal/verifrt"
 )
@@ -123,4 +126,34 @@ func VerifC22_any() {
 	})
 	verifrt.Assert(ok, "C22.any.nopanic")
 	verifrt.Reach("C22.any.end")
+}
+
+// VerifC22_limits: the 1 MiB body limit is inclusive on both sides, for every declared length:
+// Message.Encode succeeds exactly for 0 <= Bytes <= 1 MiB; Message.Decode of a header declaring a
+// length in that range is not refused for its length (with too few bytes behind it the error is
+// the unexpected end of input), and a declared length outside it is refused.
+func VerifC22_limits() {
+	verifrt.OpaqueAlloc(true)
+	n := verifrt.NondetInt32("bytes")
+	m := Message{ID: 1, SeqNo: 1, Bytes: int(n)}
+	err := m.Encode(&bin.Buffer{})
+	verifrt.Assert((err == nil) == (n >= 0 && n <= 1<<20), "C22.limits.encode")
+	b := &bin.Buffer{}
+	b.PutLong(1)
+	b.PutInt(1)
+	b.PutInt32(n)
+	b.Put(verifrt.NondetBytes("body", 4))
+	var out Message
+	derr := out.Decode(b)
+	switch {
+	case n < 0 || n > 1<<20:
+		verifrt.Assert(derr != nil && !errors.Is(derr, io.ErrUnexpectedEOF), "C22.limits.refused")
+		verifrt.Reach("C22.limits.refused")
+	case n <= 4:
+		verifrt.Assert(derr == nil && len(out.Body) == int(n), "C22.limits.decoded")
+	default:
+		verifrt.Assert(errors.Is(derr, io.ErrUnexpectedEOF), "C22.limits.shortinput")
+		verifrt.Reach("C22.limits.short")
+	}
+	verifrt.Reach("C22.limits.end")
 }
